@@ -190,6 +190,10 @@ def round_trip(key, value, serde, store, fetch, delivery, prefix=b"", encoding="
     return ("ok", r, wire_ok)
 
 
+# every fetch verb (and every store verb) is exercised under a key prefix at least once per value
+PREFIXED = {("set", "gats"), ("add", "gat"), ("replace", "gets"), ("cas", "get"), ("set_many", "gets_many"), ("cas", "get_many")}
+
+
 def _w_values(job, chk):
     sname, tier, part = job
     serde = dict(serdes(tier))[sname]
@@ -216,7 +220,8 @@ def _w_values(job, chk):
                 for dl in deliveries:
                     if dl == "byte" and big:
                         continue
-                    res = round_trip("k", v, serde, store, fetch, dl, encoding=enc)
+                    res = round_trip("k", v, serde, store, fetch, dl, encoding=enc,
+                                     prefix=b"ns:" if (store, fetch) in PREFIXED else b"")
                     chk.add()
                     chk.outcome(("value", klass(v), sname, store, fetch, dl))
                     want = v if serde is not None else expected_plain(v, enc)
